@@ -367,6 +367,16 @@ def fillIdsNew : TaskDesc → TaskDesc
     else .array ids entries
   | d => d
 
+/-- the dependency check of `handle_submit` for a graph submitted into an existing job (fix 2a18501):
+the first dependency on a task of the job that already failed / was canceled / aborted -/
+def badDep (job : Job) : TaskDesc → Option Nat
+  | .graph tasks =>
+    firstSome (fun (p : Nat × List Nat) => firstSome (fun d =>
+      match lookup job.tasks d with
+      | some .failed | some .canceled | some .aborted => some d
+      | _ => none) p.2) tasks
+  | .array _ _ => none
+
 /-- `handle_submit` (+ `submit_job_desc`); also returns the ids handed to the core -/
 def State.submit (s : State) (jobId : Option Nat) (maxFails : Option Nat) (desc : TaskDesc) :
     Except Stop (State × List Ev × SubmitResp × List TaskId) :=
@@ -379,6 +389,9 @@ def State.submit (s : State) (jobId : Option Nat) (maxFails : Option Nat) (desc 
       | none => .ok (s, [], .jobNotFound, [])
       | some job =>
         if !job.isOpen then .ok (s, [], .jobNotOpened, []) else
+        match badDep job desc with
+        | some d => .ok (s, [], .invalidDependencies d, [])
+        | none =>
         let desc' := fillIdsOpen job desc
         match job.attach desc'.jobIds with
         | .error e => .error e
